@@ -4,6 +4,10 @@ import json, os
 HERE = os.path.dirname(os.path.dirname(os.path.abspath(__file__)))
 
 CHECKS = {
+ 'C04': dict(level='model_checking', design='2/C04',
+   technique='exhaustive bounded enumeration of (known_hosts text x target port x server credential x clock boundary) through real handshakes on the controlled loop against an independent acceptance predicate; lying servers scripted with the independent peer; two-step histories on a shared known_hosts object compared with a fresh object',
+   text='Every 1-line known_hosts file over 15 pattern forms x 3 markers x 4 keys (ports 22 and 2222) and every 2-line file over a reduced second-line alphabet is combined with 14 server credentials (plain keys; host certificates whose validity windows touch the virtual clock exactly, with principal variations, wrong type, other CA, altered body). If the predicate rejects, connect must fail with a host-key/kex error and no USERAUTH_REQUEST may leave the client. Servers that present a trusted blob they cannot sign for are played by refpeer. Shared-object histories must give the same outcome as a fresh object.',
+   note='the predicate encodes the property wording only; acceptance of a trusted server is asserted only in unambiguous cases (plain key, default port); X.509 and GSS not driven.'),
  'C03': dict(level='fault_enumeration', design='2/C03',
    technique='exhaustive enumeration of single edits of the cleartext handshake (version lines, every KEXINIT field and name-list, every key exchange message) by an on-path editor between a real client and server for every non-GSS kex method, plus exhaustive enumeration of preference-list pairs through real handshakes',
    text='For each of the 31 non-GSS key exchange methods and each direction every edit in the catalogue is applied to one cleartext message of a deterministic handshake; afterwards neither side may be authenticated and the server must not have accepted a USERAUTH request. Unedited runs must end with equal session ids. For kex, cipher, MAC, compression and host key algorithm every ordered pair of non-empty permutation sub-lists of a 3-4 algorithm alphabet is negotiated for real and the result must be the first client entry the server supports (or KeyExchangeFailed).',
